@@ -50,3 +50,10 @@ def run(ctx) -> None:
     # stream swallows an exception and drops (or half-parses) an instruction
     from ._parser import parser_never_swallows
     parser_never_swallows(ctx, "C11.S6.stream-holds-every-instruction")
+    # the pattern searched is the compiled rule itself, in every mode
+    from ._matchrules import searched_pattern_is_the_rule
+    searched_pattern_is_the_rule(ctx, "C11.S7.searched-pattern-is-the-rule")
+    # every instruction the parser hands over (but the byte-continuation pseudo instruction) is in the scanned stream: the scan is
+    # complete only over a complete stream (decided through the program's own wiring of consumer and observers)
+    from ._matchrules import wired_chain_rules
+    wired_chain_rules(ctx, "C11.S8.pseudo-instruction-not-in-the-stream", "C11.S8.every-instruction-in-the-scanned-stream")
